@@ -9,8 +9,8 @@ ALL_ZONES = ["UTC", "America/Los_Angeles", "Australia/Lord_Howe",
 PROFILES = {
     # -- fault-free, exact model -------------------------------------------
     "C01": profile(scan=0.5, reads_after=(1, 4), zones=ALL_ZONES,
-                   flush_vary=True,
-                   mix={"read": 8, "getter": 0}),
+                   flush_vary=True, long_strings=0.03,
+                   mix={"read": 8, "getter": 0, "bulk": 0.15}),
     "C02": profile(modes=["r+", "r+", "r+", "w+"], zones=ALL_ZONES,
                    flush_vary=True, alphabets=["plain", "plain", "hostile"],
                    mix={"remove": 6, "drop": 1.5, "remove_all": 0.6,
@@ -48,14 +48,15 @@ PROFILES = {
                    alphabets=["plain", "hostile", "wide", "latin1",
                               "reserved", "fuzz"],
                    numbers=["small", "small", "boundary", "fuzz"],
+                   long_strings=0.06,
                    mix={"cursor": 3, "read": 2, "getter": 1,
-                        "lifecycle": 1.2}, reads_after=(0, 2)),
+                        "lifecycle": 1.2, "bulk": 0.15}, reads_after=(0, 2)),
     "C05": profile(storages=["csv"], compact=0.5, known_triggers=0.04,
                    zones=ALL_ZONES,
                    alphabets=["hostile", "reserved", "wide", "hostile", "fuzz",
                               "fuzz"],
                    numbers=["boundary", "boundary", "small", "fuzz", "fuzz"],
-                   none_values=0.2,
+                   none_values=0.2, long_strings=0.06,
                    cfg_dialects=True,
                    mix={"insert": 7, "insert_multiple": 3, "update": 2,
                         "update_all": 0.5, "remove": 2, "remove_all": 0.1,
@@ -68,9 +69,10 @@ PROFILES = {
                         "lifecycle": 2.5, "invalid": 1.5, "illtyped": 0.5,
                         "remove": 3, "update": 3}, reads_after=(0, 2)),
     "C16": profile(storages=["csv"], auto_index=[True, False],
+                   long_strings=0.05,
                    mix={"insert": 8, "insert_multiple": 4, "cursor": 4,
                         "read": 2, "getter": 1, "update": 0.7,
-                        "remove": 0.7, "lifecycle": 0.7},
+                        "remove": 0.7, "lifecycle": 0.7, "bulk": 0.2},
                    reads_after=(0, 1), max_points=25),
     # -- collaborator faults -----------------------------------------------------
     "C11": profile(mix={"invalid": 5, "illtyped": 1.5, "read": 3,
@@ -80,11 +82,13 @@ PROFILES = {
                         "lifecycle": 0.5}, len=(3, 25)),
     # -- I/O faults ----------------------------------------------------------------
     "C12": profile(storages=["csv"], len=(3, 14), max_points=10,
+                   faults_need_atomic_rows=True,
                    cfg_override={"flush_on_insert": True},
                    mix={"update": 3, "remove": 3, "remove_all": 0.5,
                         "drop": 0.7, "read": 1, "getter": 0.5,
                         "lifecycle": 0.3, "cursor": 1}, reads_after=(0, 1)),
     "C13": profile(storages=["csv"], len=(3, 14), max_points=10,
+                   faults_need_atomic_rows=True,
                    modes=["r+", "r+", "r+", "w+", "a+"],
                    cfg_override={"flush_on_insert": True},
                    mix={"update": 3, "remove": 3, "remove_all": 0.5,
